@@ -2,7 +2,7 @@
    In the model every Rust site that can panic is a `Panic` outcome and every loop runs on fuel;
    "no input panics" is `<> Panic` for ALL byte strings, "no input hangs" is fuel adequacy
    (each successful chunk read strictly shortens the input).  Chunk level (this file, growing). *)
-From PNA Require Import Base Crc32 Chunk BaseFacts ChunkFacts.
+From PNA Require Import Base Crc32 Codec Chunk Archive Entry BaseFacts ChunkFacts ArchiveFacts EntryFacts.
 Open Scope N_scope.
 
 Theorem C07_chunk_reader_never_panics : forall bs, read_chunk_stream bs <> Panic.
@@ -24,3 +24,35 @@ Theorem C07_chunk_reader_consumes :
   forall bs c r, read_chunk_stream bs = Ok (c, r) -> (length r + 12 <= length bs)%nat.
 Proof. exact read_chunk_consumes. Qed.
 Print Assumptions C07_chunk_reader_consumes.
+
+(* ---- archive and entry level: for ALL byte strings ------------------------------------------
+   with the fuel the model gives its loops (S (length input)) no reader returns Panic (= no Rust
+   panic site is reachable) nor runs out of fuel (= every loop terminates: FinPanic is also the
+   out-of-fuel marker of the iterators) *)
+Theorem C07_readers_total_stream :
+  (forall bs, read_chunks read_chunk_stream bs <> Panic /\ forall cs f, read_chunks read_chunk_stream bs = Ok (cs, f) -> f <> FinPanic) /\
+  (forall bs, raw_entries read_chunk_stream bs <> Panic /\ forall es f st, raw_entries read_chunk_stream bs = Ok (es, f, st) -> f <> FinPanic) /\
+  (forall parts, read_parts read_chunk_stream parts <> Panic /\ forall es f, read_parts read_chunk_stream parts = Ok (es, f) -> f <> FinPanic) /\
+  (forall s, next_raw_item read_chunk_stream s <> Panic).
+Proof. exact read_total_stream. Qed.
+Print Assumptions C07_readers_total_stream.
+
+Theorem C07_readers_total_slice :
+  (forall bs, read_chunks read_chunk_slice bs <> Panic /\ forall cs f, read_chunks read_chunk_slice bs = Ok (cs, f) -> f <> FinPanic) /\
+  (forall bs, raw_entries read_chunk_slice bs <> Panic /\ forall es f st, raw_entries read_chunk_slice bs = Ok (es, f, st) -> f <> FinPanic) /\
+  (forall parts, read_parts read_chunk_slice parts <> Panic /\ forall es f, read_parts read_chunk_slice parts = Ok (es, f) -> f <> FinPanic) /\
+  (forall s, next_raw_item read_chunk_slice s <> Panic).
+Proof. exact read_total_slice. Qed.
+Print Assumptions C07_readers_total_slice.
+
+(* structured entries (every field parser: FHED, SHED, PHSF, fSIZ, times, fPRM, xATR) *)
+Theorem C07_entries_never_panic :
+  forall bs, entries read_chunk_stream bs <> Panic /\
+             (forall es f, entries read_chunk_stream bs = Ok (es, f) -> f <> FinPanic).
+Proof. exact entries_no_panic. Qed.
+Print Assumptions C07_entries_never_panic.
+
+(* streams nested inside (plain) solid entries *)
+Theorem C07_solid_expansion_never_panics : forall s, snd (solid_inner_entries s) <> FinPanic.
+Proof. exact solid_inner_entries_no_panic. Qed.
+Print Assumptions C07_solid_expansion_never_panics.
